@@ -3,8 +3,8 @@ From Coq Require Import String.
 From BV Require Import Base.Prelude Base.Codec Conc.Pipe Conc.Sched Conc.Status.
 
 (** ---- c11_sched: <C> then per stage: <S|I> <drop> <take|n> <emit 0/1> <srccount>
-    Source data of stage i are the ids i*2^24 + [0..count). Output, for the producer-first and
-    then the consumer-first scheduler: <final|stuck|fuel> <out as id ranges> <statuses>. *)
+    Source data of stage i are the ids i*2^24 + [0..count). Output, for the producer-first, the
+    consumer-first and the unit-by-unit consumer-first scheduler: <final|stuck|fuel> <out as id ranges> <statuses>. *)
 Definition dec_take (s : str) : option nat :=
   match s with 110%N :: _ => None | _ => Some (dec_nat s) end.
 
@@ -59,8 +59,11 @@ Definition entry_c11_sched (a : list str) : list str :=
       let C := dec_nat c in
       let sgs := dec_stages (length r) 0%N r in
       let n := length sgs in
-      let fuel := (2 * n * total_units sgs + 6 * n + 10)%nat in
-      show_outcome (run_sched C false fuel (init sgs)) ++ show_outcome (run_sched C true fuel (init sgs))
+      let fuel := ((2 * n + 3) * total_units sgs + 6 * n + 10)%nat in
+      show_outcome (run_sched C (S C) false fuel (init sgs)) ++
+      show_outcome (run_sched C (S C) true fuel (init sgs)) ++
+      (* the slowest producer (one unit per step, consumers first); only affordable on small payloads *)
+      show_outcome (run_sched C (if (total_units sgs <=? 4096)%nat then 1%nat else S C) true fuel (init sgs))
   | [] => []
   end.
 
